@@ -23,6 +23,10 @@ func (e *Exec) lookupStub(name string) StubFn {
 		return h
 	}
 	switch {
+	case name == "(*log/slog.Logger).Enabled":
+		return func(e *Exec, st *State, fn *Func, args []Value, site string) []Outcome {
+			return ret(st, e.fresh("logEnabled", BoolSort)) // any logger configuration
+		}
 	case strings.HasPrefix(name, "(*log/slog.Logger)."), strings.HasPrefix(name, "log/slog."),
 		strings.HasPrefix(name, "(*github.com/sirupsen/logrus."), strings.HasPrefix(name, "(log/slog."):
 		if strings.HasPrefix(name, "log/slog.") && !(strings.HasSuffix(name, ".Default") || strings.HasSuffix(name, ".SetDefault")) {
